@@ -40,8 +40,6 @@ def cases(tier, seed):
     methods = ["greedy", "sampling", "multistart_greedy", "augment", "augment_dihedral_8", "multistart_greedy_augment", "multistart_greedy_augment_dihedral_8"]
     for env in ("tsp", "cvrp", "pctsp", "op"):
         for m in methods:
-            if env == "op" and "multistart" in m:
-                continue
             for (N, bs) in (((7, 3), (6, 6), (5, 8)) if q else ((7, 3), (6, 6), (5, 8), (16, 5), (9, 2))):
                 for r in range(2 if q else 4):
                     out.append(dict(kind="eval", env=env, n=rnd.choice([6, 8]), N=N, bs=bs, method=m, s=rnd.randrange(10**6), A=8 if "dihedral" in m else rnd.choice([2, 4, 8]), k=rnd.choice([3, 5])))
